@@ -121,6 +121,35 @@ def parseSoft (j : Json) : Option (Bool × Option Atom) := do
   | Json.null => some (un, none)
   | v => some (un, some (← parseAtom v))
 
+def parseFinKind (s : String) : Option FinKind :=
+  match s with
+  | "count" => some .count | "find" => some .find | "first" => some .first | "take" => some .take
+  | "last" => some .last | "pluck" => some .pluck | "scan" => some .scan | "rows" => some .rows
+  | "update" => some .update | "delete" => some .delete
+  | _ => none
+
+def parseAtoms (j : Json) : Option (List Atom) := do
+  (← jArr? j).toList.mapM parseAtom
+
+def parseStmtOp (j : Json) : Option StmtOp := do
+  let a ← jArr? j
+  match jStr? (arg a 0) with
+  | some "cond" => some (.cond (← parseOp (arg a 1)) (← parseForm (arg a 2)))
+  | some "cw" => some (.clauseWhere (← (← jArr? (arg a 1)).toList.mapM parseEx))
+  | some "unscoped" => some .unscoped
+  | some "fin" => some (.fin (← parseFinKind (← jStr? (arg a 1))) (← parseAtoms (arg a 2)) (← jBool? (arg a 3)))
+  | _ => none
+
+def stateJ (s : StmtState) (rejected : Bool) : Json :=
+  Json.mkObj [
+    ("nexprs", match s.w.exprs with | none => Json.null | some es => natJ es.length),
+    ("marker", Json.bool s.w.softEnabled),
+    ("unscoped", Json.bool s.unscoped),
+    ("keys", Json.arr (s.keys.toArray.qsort (· < ·) |>.map Json.str)),
+    ("rejected", Json.bool rejected),
+    ("sound", Json.bool (whereSound (s.w.exprs.getD []))),
+    ("where", Json.str (textFlat (whereBuild (s.w.exprs.getD []))))]
+
 end HC02
 open HC02 in
 def handleC02 (op : String) (args : Array Json) : Option Json := do
@@ -161,6 +190,22 @@ def handleC02 (op : String) (args : Array Json) : Option Json := do
     let ag ← jBool? (arg args 5)
     let after := (jBool? (arg args 6)).getD false   -- an earlier condition-free query ran on the same statement
     some (Json.bool (missingWhere ag (if after then guardStateAfterQuery ch pk soft un else guardState ch pk soft un)))
+  | "stmt.run" =>
+    -- ["stmt.run", softFilter|null, [modelKey atoms], allowGlobal, [ops]] -> state after every op (+ guard decision)
+    let soft ← match arg args 1 with
+      | Json.null => some none
+      | v => (parseAtom v).map some
+    let mk ← parseAtoms (arg args 2)
+    let ag ← jBool? (arg args 3)
+    let ops ← (← jArr? (arg args 4)).toList.mapM parseStmtOp
+    let cfg : StmtCfg := { soft := soft, modelKey := mk, allowGlobal := ag }
+    let (_, out) := ops.foldl (fun (acc : StmtState × Array Json) op =>
+      let rej := match op with
+        | .fin k vk same => finRejected cfg acc.1 k vk same
+        | _ => false
+      let s' := stmtStep cfg acc.1 op
+      (s', acc.2.push (stateJ s' rej))) (StmtState.fresh, #[])
+    some (Json.arr out)
   | _ => none
 
 end Gorm.Drv
